@@ -11,6 +11,7 @@ package interp
 
 import (
 	"go/format"
+	"go/types"
 
 	"golang.org/x/tools/imports"
 )
@@ -68,5 +69,45 @@ func init() {
 			return tuple{byteValues(out), iface{}}
 		}
 		return callBody(i, fr.caller, nil, fr.fn, args, nil)
+	}
+}
+
+// sync.Map (a lock-free trie over unsafe pointers in the runtime): modelled as an ordinary map from any to any kept
+// beside the path, keyed by the address of the sync.Map.
+func (i *interpreter) syncMapOf(recv value) *symMap {
+	p := recv.(*value)
+	if i.path.syncMaps == nil {
+		i.path.syncMaps = map[*value]*symMap{}
+	}
+	m, ok := i.path.syncMaps[p]
+	if !ok {
+		m = makeMap(types.NewInterfaceType(nil, nil).Complete(), 0).(*symMap)
+		i.path.syncMaps[p] = m
+	}
+	return m
+}
+
+func init() {
+	intrinsics["(*sync.Map).Load"] = func(fr *frame, args []value) value {
+		if v, ok := fr.i.syncMapOf(args[0]).lookup(fr.i, args[1]); ok {
+			return tuple{v, true}
+		}
+		return tuple{iface{}, false}
+	}
+	intrinsics["(*sync.Map).Store"] = func(fr *frame, args []value) value {
+		fr.i.syncMapOf(args[0]).insert(fr.i, args[1], args[2])
+		return nil
+	}
+	intrinsics["(*sync.Map).LoadOrStore"] = func(fr *frame, args []value) value {
+		m := fr.i.syncMapOf(args[0])
+		if v, ok := m.lookup(fr.i, args[1]); ok {
+			return tuple{v, true}
+		}
+		m.insert(fr.i, args[1], args[2])
+		return tuple{args[2], false}
+	}
+	intrinsics["(*sync.Map).Delete"] = func(fr *frame, args []value) value {
+		fr.i.syncMapOf(args[0]).delete(fr.i, args[1])
+		return nil
 	}
 }
